@@ -37,17 +37,25 @@ Inductive cexpr :=
 | CField (p : path) | CLen (p : path) | CMinT (e : cexpr) | CConst (z : Z)
 | CHashString | CUnknown (src : string).
 Inductive crel := RLt | RGt | REq | RNe.
+(* conditions over source fields (a destination field is traced back to the source field it was
+   copied from) *)
+Inductive ccond :=
+| CNonEmpty (p : path) | CEmpty (p : path)     (* x != "" / x == "" *)
+| CNonNil (p : path)                           (* x != nil (a pointer to a struct: some member present) *)
+| CNotC (c : ccond) | CAndC (a b : ccond)
+| CCondUnknown (src : string).
 Inductive chk :=
 | ChkRejectIf (r : crel) (a b : cexpr)
 | ChkIfNonEmpty (p : path) (c : chk)
 | ChkIfLenPos (p : path) (c : chk)
+| ChkIf (g : ccond) (c : chk)          (* the check is performed only under the condition g *)
 | ChkHostPort (p : path)               (* net.SplitHostPort must succeed *)
 | ChkScheme (how : prim) (p : path)    (* crypto.GetSchemeByID / SchemeFromName must succeed *)
 | ChkExternal (src : string).          (* involves a value that is not part of the source *)
 
-(* a legacy override block of a decoder: when [guard] (a source field) is non-empty, the
-   listed destination fields are re-assigned from other source fields *)
-Record override := O { o_guard : path; o_entries : list entry }.
+(* a legacy override of a decoder: when [o_cond] holds on the source value, the destination field
+   of [o_entry] is re-assigned from another source field *)
+Record override := O { o_cond : ccond; o_entry : entry }.
 
 Record mirror_def := M {
   m_name : string;
